@@ -207,7 +207,59 @@ def model_scalar(it, mdl):
     return None
 
 
+GLUE = {   # conversions intercepted as "same group element" in algorithm mode: checked here in formula mode
+    "ed25519": ("from_duif", "PointDuif"),
+    "ed448": ("from_affine", "PointAffine"),
+    "jq255e": ("from_affine_extended", "PointAffineExtended"),
+    "jq255s": ("from_affine_extended", "PointAffineExtended"),
+}
+
+
+def task_glue(name):
+    """from_duif / from_affine / from_affine_extended return the coordinates of the same point (Z = 1)"""
+    from engines.polyid import terms as R
+    from engines.polyid.interp import Interp
+    from engines.polyid.algo import struct_fields
+    from engines.polyid.prove import Ideal, prove_zero
+    fn, aty = GLUE[name]
+    it = Interp(MIR)
+    x, y = R.sym("x"), R.sym("y")
+    if name == "ed25519":
+        by = {"ypx": y + x, "ymx": y - x, "t2d": R.sym("ed25519_D2") * x * y}
+        want = {"X": x, "Y": y, "Z": R.ONE, "T": x * y}
+    elif name == "ed448":
+        by = {"x": x, "y": y}
+        want = {"X": x, "Y": y, "Z": R.ONE}
+    else:
+        by = {"e": x, "u": y, "t": y * y}
+        want = {"E": x, "U": y, "Z": R.ONE, "T": y * y}
+    names = struct_fields(MIR, name, aty)
+    arg = Agg("struct", [by[n] for n in names], name + "::" + aty, list(names))
+    out = it.run(it.find_fn(name, "Point", fn), [Ref(Cell(arg))])
+    pn = struct_fields(MIR, name, "Point")
+    o = Obligation("%s.%s:same-point" % (name, fn), "P", sorted(n for n in it.executed if "::<impl" in n),
+                   "polynomial identity over Z[1/2][x, y]",
+                   "%s returns exactly the coordinates (Z = 1) of the affine point it is given "
+                   "(the conversion is abstracted to the identity in algorithm mode)" % fn)
+    o.hint = dict(curve=name, func=fn, glue=True)
+    o.candidate = False
+    secs, q, bad = 0.0, 0, []
+    for n_, t in zip(pn, out.fields):
+        r = prove_zero(t - want[n_], Ideal([], ["x", "y", "ed25519_D2"]), Z3_TIMEOUT_MS)
+        secs += r.seconds
+        q += r.queries
+        if not r.ok:
+            bad.append("%s (%s)" % (n_, r.status))
+    if bad:
+        o.unknown("candidate: coordinates differ: " + ", ".join(bad), Z3_VERSION, secs, q)
+    else:
+        o.ok(Z3_VERSION, secs, q, syntactic=(q == 0))
+    return [o]
+
+
 def work(task):
+    if task[0] == "glue":
+        return task_glue(task[1])
     if task[0] == "recoder":
         from engines.polyid.recoders import SIGNED, recoder_task
         _, name, fn = task
@@ -436,6 +488,8 @@ def run(tier, only=None):
         th.join()
         return finish("C04", tier, [], t0, machinery_error="no task selected by --only %r" % (only,))
     from engines.polyid.recoders import SIGNED, native_recoder_check, scalar_order
+    if not fsel:
+        tasks += [("glue", c) for c in names if c in GLUE]
     ntask_mul = len(tasks)
     rec_meta = []
     for c in names:
@@ -477,8 +531,8 @@ def run(tier, only=None):
         if st == "ok":
             obs.extend(val)
         else:
-            o = Obligation("%s.%s:coefficient" % t, "P")
-            o.hint = dict(curve=t[0], func=t[1])
+            o = Obligation("%s.%s:coefficient" % (t[0], t[1]), "P")
+            o.hint = dict(curve=t[1] if t[0] == "glue" else t[0], func=t[1], glue=(t[0] == "glue"))
             o.candidate = False
             o.unknown("%s: %s" % (st, str(val)[:400]))
             obs.append(o)
@@ -520,6 +574,8 @@ def run(tier, only=None):
                 gfacts["decaf448_base_is_2B"] = "error: %s" % e
         for o in list(obs):
             h = o.hint
+            if h.get("glue"):
+                continue
             name, fn = h["curve"], h["func"]
             r = group_order(name)
             scal = [0, 1, 2, 31, 32, 2 ** 64, 2 ** 128 - 1, 2 ** 200 + 12345]
